@@ -42,11 +42,12 @@ structure Fixes where
   f31 : Bool := false      -- `MultiProgress::remove` repaints without the removed bar
   fkept : Bool := false    -- F32: only rows that were painted are kept (and counted) as zombie rows
   fpark : Bool := false    -- F33: a frame after a cut-off frame whose rows were all kept starts on a fresh row
+  fbottom : Bool := false   -- F35: blank rows of a shrunk bottom-aligned frame stay with a reaped first bar
   fretarget : Bool := false -- F34: `MultiProgress::set_draw_target` forgets the zombie rows of the old target
 deriving Repr, DecidableEq
 
 def Fixes.none : Fixes := {}
-def Fixes.all : Fixes := { f4 := true, f23 := true, f22 := true, fzomb := true, fstale := true, f31 := true, fkept := true, fpark := true, fretarget := true }
+def Fixes.all : Fixes := { f4 := true, f23 := true, f22 := true, fzomb := true, fstale := true, f31 := true, fkept := true, fpark := true, fretarget := true, fbottom := true }
 
 /-- the repairs the repository contains now (`fix:` commits); the correspondence harness runs the model
 with exactly this value (`FX=current`), and the property theorems are stated for it -/
